@@ -539,6 +539,15 @@ func (s *Sys) ProbeFlip(l *LState, id string) *LState {
 	return s.compute(l, Event{'F', l.Node, id})
 }
 
+// ProbeSeq computes (without entering it into the tables) the state reached from l by the given events.
+func (s *Sys) ProbeSeq(l *LState, evs ...Event) *LState {
+	cur := l
+	for _, e := range evs {
+		cur = s.compute(cur, e)
+	}
+	return cur
+}
+
 // Msg returns the message record for an id (safe for concurrent use).
 func (s *Sys) Msg(id string) *MsgInfo {
 	s.mu.Lock()
